@@ -77,4 +77,39 @@ theorem C12_odl_lineend (c : EncCfg) (items : Items) (s : Str) (hk : c.kind = .o
   | nil => simp [startsWith]
   | cons a r ih => simp [startsWith, ih]
 
+/-- **C12, ODL / PDS3 parameter names**: an assignment is written only if its name has at most 30
+    characters and is an identifier, `NAMESPACE:IDENTIFIER`, or `^` followed by one of these; otherwise the
+    encoder refuses -/
+theorem C12_odl_names (c : EncCfg) (hk : isOdlFamily c = true) (key : Str) (v : Val) (level keyLen : Nat)
+    (line : Str) (h : encodeAssignment c key v level keyLen = .ok line) :
+    key.length ≤ 30 ∧ ((startsWith key [94] && isAssignmentKey (key.drop 1)) || isAssignmentKey key) = true := by
+  unfold encodeAssignment at h
+  simp only [hk, if_true] at h
+  split at h
+  · cases h
+  · rename_i h30
+    split at h
+    · cases h
+    · rename_i hid
+      refine ⟨by omega, ?_⟩
+      cases hb : ((startsWith key [94] && isAssignmentKey (key.drop 1)) || isAssignmentKey key) with
+      | true => rfl
+      | false =>
+        exfalso
+        rw [hb] at hid
+        exact hid rfl
+
+/-- **C12, units only after numbers** in the ODL family: a value with units is written only if the value
+    is a number -/
+theorem C12_odl_units (c : EncCfg) (hk : isOdlFamily c = true) (v : Val) (u : Str) (text : Str)
+    (h : encodeValue c (.quant v u) = .ok text) : isNumericVal v = true := by
+  unfold encodeValue at h
+  split at h
+  · cases h
+  · rename_i hc
+    simp only [hk, Bool.true_and, Bool.not_eq_true'] at hc
+    cases hv : isNumericVal v with
+    | true => rfl
+    | false => simp [hv] at hc
+
 end Pvl.Enc
